@@ -3,7 +3,7 @@
    A script entry is (callee, error handling kind, loop depth, enclosing plain-if branches); see gen_c13.go.
    What a library call does in system calls (io.Copy -> write / copy_file_range, File.Seek -> lseek, ...) is written
    here by hand and compared with the traced system calls of the real code on every run. *)
-From Relic Require Import Base.Prelude Generated.C13_gen C13.Fs.
+From Relic Require Import Base.Prelude Generated.C13_gen C13.Fs C13.Stage.
 From Relic Require C13.Model.
 
 Definition sentry := (Z * Z * Z * list Z)%type.
@@ -99,37 +99,83 @@ Fixpoint armed_after (guard : Z -> bool) (close_c : Z) (armed : bool) (es : list
                 (if forallb guard (e_cnd e) && (e_kind e =? 9) && (e_callee e =? close_c) then true else armed) r
   end.
 
-(* atomicfile.New = ioutil.TempFile; WriteAny (write-rename branch) = isSpecial's stat, whose failure means "not special", then New *)
-Definition new_steps (armed : bool) (outer : Z) : list pstep :=
-  mk_steps armed (combine_kind (script_kind new_script 0) outer) [(SCreate pt it, false, false)].
-Definition writeany_steps (armed : bool) (outer : Z) : list pstep :=
-  mk_steps armed outer [(SNop K_STAT_DEST, true, false)] ++ new_steps armed outer.
+(* atomicfile.New / atomicfile.WriteAny: one step per file-system call the generated decision tree makes in environment e
+   (C13/Stage.v).  A call that fails in e is a step that fails by itself; its failure ends the output phase (handled as the
+   caller handles WriteAny's / New's error: `outer`) when the tree stops there and returns an error, and is "ignored" when the
+   tree goes on (another call, a handle returned with a nil error).  idest: the inode behind the destination name (or the
+   one a creating open of the destination itself would make) *)
+Fixpoint open_steps_from (run : oenv -> ores) (e : oenv) (idest : ino) (armed : bool) (outer : Z) (r : ores) (evs : list oev) : list pstep :=
+  match evs with
+  | [] => []
+  | ev :: rest =>
+      (* a call that failed ends the phase when nothing follows it and the function returns an error and no handle; for a call
+         that succeeded: what the function would do had it failed *)
+      let ends_here := match rest with [] => o_err r && (mode_of (o_handle r) =? -1) | _ :: _ => false end in
+      mkP (ev_op pt pd it idest ev)
+          (match ev with
+           | EvStat => Ignore      (* isSpecial: a failing stat means "not special" *)
+           | EvOpen fn _ _ failed => if (if failed then ends_here else fail_aborts run e fn) then kind_onerr outer else Ignore
+           end)
+          (cleanup_ops (armed || (outer =? 2)) true) (ev_failed ev)
+      :: open_steps_from run e idest armed outer r rest
+  end.
+Definition open_steps (run : oenv -> ores) (e : oenv) (idest : ino) (armed : bool) (outer : Z) : list pstep :=
+  open_steps_from run e idest armed outer (run e) (o_events (run e)).
+Definition new_steps_e (e : oenv) (idest : ino) (armed : bool) (outer : Z) : list pstep := open_steps new_result e idest armed outer.
+Definition writeany_steps_e (e : oenv) (idest : ino) (armed : bool) (outer : Z) : list pstep := open_steps writeany_result e idest armed outer.
+Definition new_steps (armed : bool) (outer : Z) : list pstep := new_steps_e (env_ok false false) it armed outer.
+Definition writeany_steps (armed : bool) (outer : Z) : list pstep := writeany_steps_e (env_ok false false) it armed outer.
+
+(* when the handle is not the write-rename object but the destination itself (nopAtomic: what WriteAny hands out for special
+   files): the same calls of the caller, on the destination's inode; Commit is Close, Close removes nothing *)
+Definition retarget_op (idest : ino) (o : sop) : option sop :=
+  match o with
+  | SWrite i d => Some (SWrite (if i =? it then idest else i) d)
+  | SPWrite i off d => Some (SPWrite (if i =? it then idest else i) off d)
+  | STrunc i n => Some (STrunc (if i =? it then idest else i) n)
+  | SCopy src dst off n => Some (SCopy src (if dst =? it then idest else dst) off n)
+  | SNop k => if k =? K_CHMOD then None else Some (SNop (if k =? K_CLOSE_TMP then K_CLOSE_DEST else k))
+  | SRename _ _ => None
+  | SUnlink p => if p =? pt then None else Some o
+  | _ => Some o
+  end.
+Definition retarget_list (idest : ino) (l : list sop) : list sop :=
+  flat_map (fun o => match retarget_op idest o with Some o' => [o'] | None => [] end) l.
+Definition direct_of (idest : ino) (pl : list pstep) : list pstep :=
+  flat_map (fun st => match retarget_op idest (p_op st) with
+                      | Some o => [mkP o (p_onerr st) (retarget_list idest (p_cleanup st)) (p_natfail st)]
+                      | None => []
+                      end) pl.
+Definition finish_plan (h : rh) (idest : ino) (pl : list pstep) : list pstep :=
+  match h with RDirect _ _ _ _ => direct_of idest pl | _ => pl end.
 
 (* ================================================================== whole-file write (fileProducer.Apply, not a patch) *)
-Definition whole_env (writes : list bytes) (c : Z) (armed : bool) (k : Z) : list pstep :=
-  if c =? 0 then writeany_steps armed k
+Definition whole_env (e : oenv) (idest : ino) (writes : list bytes) (c : Z) (armed : bool) (k : Z) : list pstep :=
+  if c =? 0 then writeany_steps_e e idest armed k
   else if c =? 2 then mk_steps armed k (map (fun d => (SWrite it d, false, false)) writes)
   else if c =? 3 then mk_steps armed k [(SNop K_CLOSE_IN, false, false)]
   else [].
 Definition whole_guard (is_patch : bool) (id : Z) : bool := if id =? 2 then is_patch else true.
-Definition whole_plan (writes : list bytes) : list pstep :=
-  interp (whole_env writes) (whole_guard false) 1 4 false whole_script.
+Definition whole_plan_e (e : oenv) (idest : ino) (writes : list bytes) : list pstep :=
+  finish_plan (o_handle (writeany_result e)) idest (interp (whole_env e idest writes) (whole_guard false) 1 4 false whole_script).
+Definition whole_plan (writes : list bytes) : list pstep := whole_plan_e (env_ok false false) it writes.
 
 (* atomicfile.WriteFile *)
-Definition writefile_env (data : bytes) (c : Z) (armed : bool) (k : Z) : list pstep :=
-  if c =? 0 then writeany_steps armed k
+Definition writefile_env (e : oenv) (idest : ino) (data : bytes) (c : Z) (armed : bool) (k : Z) : list pstep :=
+  if c =? 0 then writeany_steps_e e idest armed k
   else if c =? 2 then mk_steps armed k [(SWrite it data, false, false)]
   else [].
-Definition writefile_plan (data : bytes) : list pstep :=
-  interp (writefile_env data) (fun _ => true) 1 3 false writefile_script.
+Definition writefile_plan_e (e : oenv) (idest : ino) (data : bytes) : list pstep :=
+  finish_plan (o_handle (writeany_result e)) idest (interp (writefile_env e idest data) (fun _ => true) 1 3 false writefile_script).
+Definition writefile_plan (data : bytes) : list pstep := writefile_plan_e (env_ok false false) it data.
 
 (* ================================================================== patch by rewrite (PatchSet.applyRewrite) *)
 Definition rw_delta (pos : Z) (p : patch) : Z := rewrite_delta (p_off p) pos.
 Definition rw_next (pos : Z) (p : patch) : Z :=
   (if rewrite_copy_before (rw_delta pos p) then pos + rw_delta pos p else pos) + rewrite_skip (p_old p).
-Definition rw_env (insize pos : Z) (po : option patch) (c : Z) (armed : bool) (k : Z) : list pstep :=
+Definition rw_env (e : oenv) (insize pos : Z) (po : option patch) (c : Z) (armed : bool) (k : Z) : list pstep :=
   if c =? 0 then mk_steps armed k [(SNop K_SEEK_IN, false, false)]
-  else if c =? 1 then new_steps armed k
+  else if c =? 1 then new_steps_e e it armed k
   else if c =? 5 then mk_steps armed k [(SCopy iin it pos (Z.max 0 (insize - pos)), false, false)]
   else if c =? 6 then mk_steps armed k [(SNop K_CLOSE_IN, false, false)]
   else match po with
@@ -144,18 +190,19 @@ Definition rw_env (insize pos : Z) (po : option patch) (c : Z) (armed : bool) (k
    order), #2 `delta > 0` around CopyN *)
 Definition rw_guard (pos : Z) (po : option patch) (id : Z) : bool :=
   if id =? 4 then match po with Some p => rewrite_copy_before (rw_delta pos p) | None => true end else true.
-Fixpoint rw_loop (insize : Z) (armed : bool) (body : list sentry) (pos : Z) (ps : list patch) : list pstep * Z :=
+Fixpoint rw_loop (e : oenv) (insize : Z) (armed : bool) (body : list sentry) (pos : Z) (ps : list patch) : list pstep * Z :=
   match ps with
   | [] => ([], pos)
-  | p :: r => let '(l, pos') := rw_loop insize armed body (rw_next pos p) r in
-              (interp (rw_env insize pos (Some p)) (rw_guard pos (Some p)) 2 7 armed body ++ l, pos')
+  | p :: r => let '(l, pos') := rw_loop e insize armed body (rw_next pos p) r in
+              (interp (rw_env e insize pos (Some p)) (rw_guard pos (Some p)) 2 7 armed body ++ l, pos')
   end.
-Definition rewrite_plan (insize : Z) (ps : list patch) : list pstep :=
+Definition rewrite_plan_e (e : oenv) (insize : Z) (ps : list patch) : list pstep :=
   let g := rw_guard 0 None in
   let pre := sc_pre rewrite_script in
   let armed := armed_after g 2 false pre in
-  let '(loop, pos) := rw_loop insize armed (sc_body rewrite_script) 0 ps in
-  interp (rw_env insize 0 None) g 2 7 false pre ++ loop ++ interp (rw_env insize pos None) g 2 7 armed (sc_post rewrite_script).
+  let '(loop, pos) := rw_loop e insize armed (sc_body rewrite_script) 0 ps in
+  interp (rw_env e insize 0 None) g 2 7 false pre ++ loop ++ interp (rw_env e insize pos None) g 2 7 armed (sc_post rewrite_script).
+Definition rewrite_plan (insize : Z) (ps : list patch) : list pstep := rewrite_plan_e (env_ok false false) insize ps.
 
 (* ================================================================== patch in place (PatchSet.Apply, the exempted strategy) *)
 Definition inplace_plan (ps : list patch) (size : Z) : list pstep :=
@@ -184,30 +231,33 @@ Definition apply_decision_fs (s : fsys) (can_write : bool) (nlink : Z) (ps : lis
     (match dirent s pd with Some (EFile _) => true | _ => false end)
     (match dirent s pd with Some (EFile i) => i =? iin | _ => false end)
     true can_write nlink ps in_size.
-Definition apply_plan (d : option Z) (insize : Z) (ps : list patch) : list pstep :=
+Definition apply_plan_e (e : oenv) (d : option Z) (insize : Z) (ps : list patch) : list pstep :=
   mk_steps false 0 [(SNop K_FSTAT_IN, false, false); (SNop K_STAT_DEST, false, false)]
-  ++ match d with Some size => inplace_plan ps size | None => rewrite_plan insize ps end.
+  ++ match d with Some size => inplace_plan ps size | None => rewrite_plan_e e insize ps end.
+Definition apply_plan (d : option Z) (insize : Z) (ps : list patch) : list pstep := apply_plan_e (env_ok false false) d insize ps.
 
 (* ================================================================== MSI: copy the input, edit the copy, commit *)
 Definition edit_sop (e : edit) : sop := match e with EW off d => SPWrite it off d | ET n => STrunc it n end.
-Definition wip_env (insize : Z) (c : Z) (armed : bool) (k : Z) : list pstep :=
-  if c =? 0 then new_steps armed k
+Definition wip_env (e : oenv) (insize : Z) (c : Z) (armed : bool) (k : Z) : list pstep :=
+  if c =? 0 then new_steps_e e it armed k
   else if c =? 1 then mk_steps armed k [(SNop K_SEEK_IN, false, false)]
   else if c =? 2 then mk_steps armed k [(SCopy iin it 0 insize, false, false)]
   else if c =? 3 then mk_steps armed k [(SNop K_SEEK_TMP, false, false)]
   else if c =? 4 then mk_steps armed k [(SNop K_CLOSE_IN, false, false)]
   else [].
-Definition wip_plan (insize : Z) : list pstep :=
-  interp (wip_env insize) (fun _ => true) (-1) (-1) false writeinplace_script.
-Definition msi_env (insize nreads : Z) (edits1 edits2 : list edit) (c : Z) (armed : bool) (k : Z) : list pstep :=
+Definition wip_plan_e (e : oenv) (insize : Z) : list pstep :=
+  interp (wip_env e insize) (fun _ => true) (-1) (-1) false writeinplace_script.
+Definition wip_plan (insize : Z) : list pstep := wip_plan_e (env_ok false false) insize.
+Definition msi_env (e : oenv) (insize nreads : Z) (edits1 edits2 : list edit) (c : Z) (armed : bool) (k : Z) : list pstep :=
   if c =? 1 then mk_steps armed k [(SNop K_READ_RESULT, false, false)]
-  else if c =? 2 then nested k (wip_plan insize)
+  else if c =? 2 then nested k (wip_plan_e e insize)
   else if c =? 4 then mk_steps armed k (repeat (SNop K_PREAD_TMP, false, false) (Z.to_nat nreads))
   else if c =? 5 then mk_steps armed k (map (fun e => (edit_sop e, false, false)) edits1)
   else if c =? 6 then mk_steps armed k (map (fun e => (edit_sop e, false, false)) edits2)
   else [].
-Definition msi_plan (insize nreads : Z) (edits1 edits2 : list edit) : list pstep :=
-  interp (msi_env insize nreads edits1 edits2) (fun _ => true) 3 7 false msi_script.
+Definition msi_plan_e (e : oenv) (insize nreads : Z) (edits1 edits2 : list edit) : list pstep :=
+  interp (msi_env e insize nreads edits1 edits2) (fun _ => true) 3 7 false msi_script.
+Definition msi_plan (insize nreads : Z) (edits1 edits2 : list edit) : list pstep := msi_plan_e (env_ok false false) insize nreads edits1 edits2.
 (* the same edits on the input itself when source and destination are the same name (exempted: in place) *)
 Definition msi_inplace_plan (nreads : Z) (edits1 edits2 : list edit) : list pstep :=
   mk_steps false 1 (repeat (SNop K_PREAD_IN, false, false) (Z.to_nat nreads)) ++
@@ -245,8 +295,8 @@ Fixpoint merge_prims_cs_from (drop : bool) (seekno : nat) (io : list mio) : list
   | x :: r => mio_prim (drop && is_mwrite x && negb (existsb is_mwrite r)) seekno x :: merge_prims_cs_from drop (next_seek seekno x) r
   end.
 Definition merge_prims_cs (drop : bool) (io : list mio) : list prim := merge_prims_cs_from drop 0 io.
-Definition pgp_env (drop : bool) (io : list mio) (c : Z) (armed : bool) (k : Z) : list pstep :=
-  if c =? 0 then writeany_steps armed k
+Definition pgp_env (e : oenv) (idest : ino) (drop : bool) (io : list mio) (c : Z) (armed : bool) (k : Z) : list pstep :=
+  if c =? 0 then writeany_steps_e e idest armed k
   else if c =? 2 then mk_steps armed k [(SNop K_SEEK_IN, false, false)]
   else if c =? 3 then mk_steps armed k [(SNop K_READ_RESULT, false, false)]
   else if c =? 4 then mk_steps armed k (merge_prims_cs drop io)
@@ -260,11 +310,15 @@ Definition pgp_guard (inline clearsign : bool) (id : Z) : bool :=
   else if id =? 4 then pgp_merge_clearsign clearsign
   else if id =? 5 then negb (pgp_merge_clearsign clearsign)
   else true.
+Definition pgp_plan_gen_e (e : oenv) (idest : ino) (drop inline clearsign : bool) (io : list mio) : list pstep :=
+  finish_plan (o_handle (writeany_result e)) idest (interp (pgp_env e idest drop io) (pgp_guard inline clearsign) 1 8 false pgp_script).
 Definition pgp_plan_gen (drop inline clearsign : bool) (io : list mio) : list pstep :=
-  interp (pgp_env drop io) (pgp_guard inline clearsign) 1 8 false pgp_script.
+  pgp_plan_gen_e (env_ok false false) it drop inline clearsign io.
 (* is the error of MergeClearSign's final Flush dropped? (the call is deferred, or its result unused) *)
 Definition clearsign_flush_dropped : bool :=
   let k := script_kind mergeclearsign_script 0 in (k =? 9) || (k =? 0) || (k =? 5).
+Definition pgp_plan_e (e : oenv) (idest : ino) (inline clearsign : bool) (io : list mio) : list pstep :=
+  pgp_plan_gen_e e idest clearsign_flush_dropped inline clearsign io.
 Definition pgp_plan (inline clearsign : bool) (io : list mio) : list pstep :=
   pgp_plan_gen clearsign_flush_dropped inline clearsign io.
 
@@ -295,6 +349,13 @@ Definition fixup_steps (nreads off : Z) (cksum : bytes) : list pstep :=
   else [].
 Definition pe_sign_plan (insize : Z) (ps : list patch) (nreads off : Z) (cksum : bytes) : list pstep :=
   apply_plan None insize ps ++ fixup_steps nreads off cksum.
+
+(* the same strategies over ANY pair of open-phase trees (used for the witness: the design with a fallback) *)
+Definition whole_plan_t (wt nt : otree) (e : oenv) (idest : ino) (writes : list bytes) : list pstep :=
+  let run := writeany_result_t wt nt in
+  finish_plan (o_handle (run e)) idest
+    (interp (fun c armed k => if c =? 0 then open_steps run e idest armed k else whole_env e idest writes c armed k)
+            (whole_guard false) 1 4 false whole_script).
 End Build.
 
 (* WriteAny's choice as a function of the destination in the file system: os.Stat follows links *)
@@ -306,6 +367,8 @@ Definition dest_is_special (s : fsys) (pd : path) : bool :=
               | None => None
               end in
   is_special (match stat with Some _ => true | None => false end) (match stat with Some r => r | None => false end).
+(* the inode a direct open of the destination reaches: the file behind the name, or the new one (fresh) it would create *)
+Definition dest_inode (s : fsys) (pd : path) (fresh : ino) : ino := match resolve s pd with Some j => j | None => fresh end.
 Definition writeany_strategy (is_dash : bool) (s : fsys) (pd : path) : Z :=
   fst (writeany_choice is_dash (dest_is_special s pd)).
 
